@@ -100,6 +100,9 @@ class BaseTaskPool:
         self._tasks_running: Dict[int, Task[Any]] = {}
         self._tasks_cancelled: Dict[int, Task[Any]] = {}
         self._tasks_ended: Dict[int, Task[Any]] = {}
+        # IDs of tasks that were created but did not take their first step yet,
+        # mapped to the `CancelledError` to raise as soon as they do (if any).
+        self._tasks_unstarted: Dict[int, CancelledError | None] = {}
 
         # Synchronisation primitives necessary for managing the pool.
         self._enough_room: Semaphore = Semaphore()
@@ -355,6 +358,11 @@ class BaseTaskPool:
         """
         log.info("Started %s", self._task_name(task_id))
         try:
+            cancelled_before_start = self._tasks_unstarted.pop(task_id, None)
+            if cancelled_before_start is not None:
+                if iscoroutine(awaitable):
+                    awaitable.close()
+                raise cancelled_before_start
             return await awaitable
         except CancelledError:
             await self._task_cancellation(
@@ -413,6 +421,7 @@ class BaseTaskPool:
             task_id = self._num_started
             self._num_started += 1
             group_reg.add(task_id)
+            self._tasks_unstarted[task_id] = None
             self._tasks_running[task_id] = create_task(
                 coro=self._task_wrapper(
                     awaitable, task_id, end_callback, cancel_callback
@@ -444,6 +453,18 @@ class BaseTaskPool:
             if self._tasks_ended.get(task_id):
                 raise AlreadyEnded(self._task_name(task_id)) from None
             raise TaskNotFound(task_id, self) from None
+
+    def _cancel_task(self, task_id: int, task: Task[Any], **cancel_kw: Any) -> None:
+        """
+        Cancels a running task of the pool.
+
+        A task that did not take its first step yet can not handle cancellation
+        (its wrapper would never run), so it is cancelled as soon as it starts.
+        """
+        if task_id in self._tasks_unstarted:
+            self._tasks_unstarted[task_id] = CancelledError(*cancel_kw.values())
+        else:
+            task.cancel(**cancel_kw)
 
     @staticmethod
     def _get_cancel_kw(msg: str | None) -> Dict[str, str]:
@@ -494,8 +515,8 @@ class BaseTaskPool:
         """
         tasks = [self._get_running_task(task_id) for task_id in task_ids]
         kw = self._get_cancel_kw(msg)
-        for task in tasks:
-            task.cancel(**kw)
+        for task_id, task in zip(task_ids, tasks):
+            self._cancel_task(task_id, task, **kw)
 
     def _cancel_group_meta_tasks(self, group_name: str) -> None:
         """Cancels and forgets all meta tasks associated with the task group."""
@@ -534,10 +555,12 @@ class BaseTaskPool:
         """
         self._cancel_group_meta_tasks(group_name)
         while group_reg:
+            task_id = group_reg.pop()
             try:
-                self._tasks_running[group_reg.pop()].cancel(**cancel_kw)
+                task = self._tasks_running[task_id]
             except KeyError:
                 continue
+            self._cancel_task(task_id, task, **cancel_kw)
         log.debug("%s cancelled tasks from group %s", str(self), group_name)
 
     def cancel_group(self, group_name: str, msg: str | None = None) -> None:
